@@ -15,6 +15,13 @@ step of a seeded input sequence, every state attribute, `torch.equal` per sample
       state differs by the whole dynamic range of the dtype share the batched tensors;
   (C-wide) the 4 connection classes at presynaptic widths 24 … 1024 (conv: 8x8 … 32x32 images), batch sizes up to 5, with every
       sample independently blank on a step / starting late, so blank samples sit at any batch index.
+  (C-large) dense / lateral / convolutional connections whose batch x inputs x outputs product (size of the delay selector and of the
+      delay-selected currents) reaches 2^21, batch sizes up to 8 (implementations may split large selections);
+  (T-grid) every trainer x every connection class with learned delays, the trainer in its delayed mode, convolutions with 2-4
+      filters, batch 2-4, batch_reduction=sum: the combinations are enumerated instead of drawn;
+  (A) adaptation ON: the four adaptive neuron classes with batch_reduction in {sum, mean, amax, amin, prod, a user-defined one}: per-sample
+      spikes / voltages == the batch-1 copies started from the same adaptations, and the batched adaptation == the configured reduction
+      of the copies' adaptations (the documented coupling), also for an unreduced tensor assigned through the public setter.
 The Lean side (`Model/Batch.lean`, `Props/C11.lean`) is thin — see SPEC assumptions.
 """
 from __future__ import annotations
@@ -45,7 +52,10 @@ SPEC = {
         "selector act per column; a sum reduction is linear (per step and over runs).  That the real neuron / synapse / connection / layer / "
         "trainer classes have this structure is NOT proved in Lean: it is what the relational comparison on the real code checks, and the "
         "claim rests as much on that comparison as on the theorems; there is no driver (nothing of the real code is re-executed in Lean here)",
-        "adaptation is frozen (adapt=False); with adaptation on, samples are coupled by the documented batch reduction",
+        "adaptation is frozen (adapt=False) in all streams but `neuron-adapt`; with adaptation on, samples are coupled by the documented batch "
+        "reduction: `neuron-adapt` checks exactly that coupling — batched adaptation == batch_reduction(stack of the adaptations of batch-1 copies "
+        "stepped from the same state, 0) to 1e-9 relative, for sum / mean / amax / amin / prod / a user-defined reduction that is the identity on a "
+        "single sample — one step at a time (the copies are re-synchronised to the batched neuron's adaptations before every step)",
         "copies are constructed independently with batch_size=1 and receive the non-batched entries (weights, biases, delays, adaptations) "
         "through state_dict()/load_state_dict(strict=False); batched entries start from their constructor values on both sides",
         "trainer comparison: batch_reduction=torch.sum, accumulators cleared (not applied) after each step so that parameters stay identical; "
@@ -346,6 +356,12 @@ WIDTHS = [24, 96, 320, 512, 768, 1024]      # presynaptic widths of the wide str
 CONV_SIDES = [8, 16, 23, 32]
 LATERAL_DELAYED_WIDTHS = [16, 24, 48, 64]
 CONV_DELAYED_SIDES = [8, 10, 12, 16]
+# the large stream: (inputs, outputs) of dense connections, (units, units) of lateral ones, (image side, filters) of convolutions; the
+# LAST entry of each pool is part of every run
+LARGE_KINDS = ["dense", "lateral", "conv"]
+LARGE_SIZES = {"dense": [(128, 128), (640, 96), (256, 256), (384, 200), (1024, 300), (512, 512)],
+               "lateral": [(128, 128), (192, 192), (256, 256), (384, 384), (512, 512)],
+               "conv": [(16, 4), (20, 6), (24, 8), (32, 8)]}
 
 
 def active_indices(x):
@@ -359,12 +375,21 @@ def connection_stream(ctx, ex, thorough, wide=False):
     code paths by size), batch sizes up to 5, and per-sample activity patterns — every sample is independently blank on a step
     with probability 0.35 and may start late, so blank samples occur at ANY batch index, before and after active ones"""
     rng = ctx.rng
-    T = (12 if thorough else 8) if wide else (20 if thorough else 10)
-    sname = "connection-wide" if wide else "connection"
-    for kind in nb.CONNECTIONS:
+    large = wide == "large"
+    T = (6 if thorough else 4) if large else (12 if thorough else 8) if wide else (20 if thorough else 10)
+    sname = "connection-large" if large else "connection-wide" if wide else "connection"
+    for kind in (LARGE_KINDS if large else nb.CONNECTIONS):
         for delayed in (False, True):
             nrep = (8 if thorough else 4) if wide else (30 if thorough else 8)
-            if wide:
+            if large:
+                # the per-pair / per-patch-element selector of a delayed connection has batch x inputs x outputs elements: sizes are
+                # drawn so that this product ranges over 2^15 .. 2^21 (every run includes the largest size of the pool), batch sizes
+                # up to 8; undelayed connections of the same sizes get one case (two in the thorough tier)
+                nrep = (6 if thorough else 3) if delayed else (2 if thorough else 1)
+                pool = LARGE_SIZES[kind]
+                widths = [pool[-1]] + rng.sample(pool[:-1], min(nrep - 1, len(pool) - 1))
+                widths = widths + [rng.choice(pool) for _ in range(nrep - len(widths))]
+            elif wide:
                 # delayed all-to-all lateral connections read a (batch x n x n) history per step, delayed convolutions one entry per
                 # (patch, kernel element): both are capped to keep the quick tier quick
                 pool = ((CONV_DELAYED_SIDES if delayed else CONV_SIDES) if kind == "conv"
@@ -377,11 +402,16 @@ def connection_stream(ctx, ex, thorough, wide=False):
                 # too; otherwise (exponential synapses, arbitrary weights) the reduced output is compared to 1e-12 relative
                 dy = rep % 2 == 0
                 cc = nb.connection_cfg(rng, kind, nb.synapse_cfg(rng, rng.choice(["delta", "deltaplus"] if dy else nb.SYNAPSES)), delayed, dyadic=dy,
-                                       **({"n_in": widths[rep]} if wide and kind != "conv" else {}))
-                if wide and kind == "conv":
+                                       **({"n_in": widths[rep][0] if large else widths[rep]} if wide and kind != "conv" else {}))
+                if large and kind == "conv":
+                    cc["h"] = cc["w"] = widths[rep][0]
+                    cc["f"] = widths[rep][1]
+                elif large and kind == "dense":
+                    cc["out"] = widths[rep][1]
+                elif wide and kind == "conv":
                     cc["h"] = cc["w"] = widths[rep]
                 dt = rng.choice([0.5, 1.0])
-                B = rng.choice([2, 3, 4, 5] if wide else [2, 3])
+                B = rng.choice([3, 4, 5, 6, 8] if large else [2, 3, 4, 5] if wide else [2, 3])
                 g = nb.gen(rng.randrange(2**31))
                 # resized: the batched connection is built (and used for a step) at ANOTHER batch size, then brought to B through
                 # the public `batchsz` setter and cleared — anything cached per batch size must follow
@@ -403,8 +433,10 @@ def connection_stream(ctx, ex, thorough, wide=False):
                     singles.append(c1)
                 case = {"stream": sname, "class": kind, "cfg": cc, "dt": dt, "batch": B, "exact": exact, "resized_from": B0 if resized else None}
                 ex.count(sname, kind + ("+delay" if delayed else ""))
+                if large:
+                    ex.count("connection-large-log2-of-batch-x-inputs-x-outputs", str(int(math.log2(B * math.prod(big.inshape) * math.prod(big.outshape)))))
                 if wide:
-                    ex.count("connection-wide-inputs", str(math.prod(big.inshape)))
+                    ex.count(sname + "-inputs", str(math.prod(big.inshape)))
                     start = [rng.choice([0, 0, 1, 2, 3]) for _ in range(B)]      # per-sample late start
                     case["start"] = start
                 pack = (lambda vs: {"active_indices_per_step_per_sample": [active_indices(v) for v in vs]}) if wide else \
@@ -430,9 +462,9 @@ def connection_stream(ctx, ex, thorough, wide=False):
                                 x[b] = 0
                         act = [bool(x[b].any()) for b in range(B)]
                         if any((not act[i]) and any(act[i + 1:]) for i in range(B)):
-                            ex.count("connection-wide-pattern", "blank sample below an active one")
+                            ex.count(sname + "-pattern", "blank sample below an active one")
                         if any((not act[i]) and any(act[:i]) for i in range(B)):
-                            ex.count("connection-wide-pattern", "blank sample above an active one")
+                            ex.count(sname + "-pattern", "blank sample above an active one")
                     xs.append(x)
                     with torch.no_grad():
                         o1 = [c(x[b:b + 1]) for b, c in enumerate(singles)]
@@ -672,10 +704,264 @@ def connection_wide_stream(ctx, ex, thorough):
     connection_stream(ctx, ex, thorough, wide=True)
 
 
+def connection_large_stream(ctx, ex, thorough):
+    """dense / lateral / convolutional connections whose batch x inputs x outputs product (the size of the delay selector and of the
+    delay-selected currents) reaches 2^21, batch sizes up to 8: same comparison as the other connection streams"""
+    connection_stream(ctx, ex, thorough, wide="large")
+
+
+def trainer_grid_stream(ctx, ex, thorough):
+    """EVERY trainer on EVERY connection class (dense, direct, lateral, conv) with learned heterogeneous delays, the trainer in its
+    delayed mode wherever it has one (presynaptic history read per sample through the connection's selector and reshaped by the
+    connection), convolutions with 2-4 filters and 1-2 channels, batch sizes 2-4, batch_reduction=sum: batched accumulator parts ==
+    sum over samples of the batch-1 parts.  The (trainer x connection class x delayed) combinations are enumerated, not drawn"""
+    rng = ctx.rng
+    T = 10 if thorough else 6
+    for tk in nb.TRAINERS:
+        for ck in nb.CONNECTIONS:
+            for rep in range(2 if thorough else 1):
+                for attempt in range(3):
+                    dy = (rep + attempt) % 2 == 0
+                    B = rng.choice([2, 3, 4])
+                    cfg = nb.layer_cfg(rng, "serial", conn_kind=ck, delayed=True, batch=B, dyadic=dy)
+                    if ck == "conv":
+                        cfg["conns"][0]["f"] = rng.choice([2, 3, 4])
+                    tc = nb.trainer_cfg(rng, tk)
+                    tc["reduction"] = "sum"
+                    tc["delayed"] = True
+                    g = nb.gen(rng.randrange(2**31))
+                    big, singles = build_pair(cfg, B)
+                    randomise_adaptations(big, g)
+                    for n1 in singles:
+                        copy_params(big.layer, n1.layer)
+                    per_sample_reward = rng.random() < 0.5
+                    param = "delay" if tk in nb.DELAY_PARAM else "weight"
+                    case = {"stream": "trainer-grid", "trainer": tc, "cfg": cfg, "batch": B, "steps": T, "per_sample_reward": per_sample_reward}
+                    X = big.gen_inputs(g, T, rng.choice([0.4, 0.6]))
+                    bad, nonzero = None, 0
+                    try:
+                        trB = nb.build_trainer(tc, big, batch_reduction=torch.sum)
+                        tr1 = [nb.build_trainer(tc, n1, batch_reduction=torch.sum) for n1 in singles]
+                    except Exception as e:  # noqa: BLE001
+                        add(ex, f"C11:trainer:{tk}:raises", f"{tk} cannot be registered on a delayed {ck} cell: {type(e).__name__}: {str(e)[:160]}", case)
+                        bad = (0, "raises", "")
+                    for t in range(T if not bad else 0):
+                        rew = torch.randint(-2, 3, (B,), generator=g).to(torch.float64) / 2
+                        if not per_sample_reward:
+                            rew = rew[:1].expand(B).clone()
+                        with torch.no_grad():
+                            for b, n1 in enumerate(singles):
+                                n1.step([x[b:b + 1] for x in X[t]], adapt=False)
+                            for b, tr in enumerate(tr1):
+                                if tk in nb.REWARDED:
+                                    tr(rew[b:b + 1] if per_sample_reward else float(rew[0]))
+                                else:
+                                    tr()
+                            try:
+                                big.step(X[t], adapt=False)
+                                if tk in nb.REWARDED:
+                                    trB(rew if per_sample_reward else float(rew[0]))
+                                else:
+                                    trB()
+                            except Exception as e:  # noqa: BLE001 - the batch-1 runs went through
+                                add(ex, f"C11:trainer:{tk}:batched-raises", f"{tk} (delayed mode, batch_reduction=sum) on a delayed {ck} cell, batch {B}: the "
+                                    f"batched step raises {type(e).__name__} at step {t} ({str(e)[:160]}) while the batch-1 runs go through",
+                                    dict(case, step=t, inputs=[[x.tolist() for x in xs] for xs in X]))
+                                bad = (t, "raises", "")
+                                break
+                            pB = acc_parts(big, param)
+                            p1 = [acc_parts(n1, param) for n1 in singles]
+                            for n in [big] + singles:
+                                for c in n.conns:
+                                    c.updater.clear()
+                        ex.evaluations += 1
+                        for k, vB in pB.items():
+                            vs = [p[k] for p in p1]
+                            if vB is None or any(v is None for v in vs):
+                                if not (vB is None and all(v is None for v in vs)):
+                                    bad = (t, k, f"batched part is {'None' if vB is None else 'a tensor'}, single parts: {[v is None for v in vs]}")
+                                    break
+                                continue
+                            tot = torch.stack(vs, 0).sum(0)
+                            nonzero += int(bool((vB != 0).any()))
+                            if not approx(vB, tot):
+                                i = ((vB - tot).abs()).flatten().argmax().item() if vB.shape == tot.shape else 0
+                                bad = (t, k, (f"batched {vB.flatten()[i].item()} vs sum of per-sample {tot.flatten()[i].item()} (per sample "
+                                              f"{[v.flatten()[i].item() for v in vs]}) at flat index {i}") if vB.shape == tot.shape
+                                       else f"shape {tuple(vB.shape)} vs {tuple(tot.shape)}")
+                                break
+                        if not bad:
+                            d = compare_snapshots(nb.snapshot({"l": big.layer}), [nb.snapshot({"l": n1.layer}) for n1 in singles], B,
+                                                  None if dy else 1e-9)
+                            if d:
+                                bad = (t, d[0], f"sample {d[1]}: {d[2]}")
+                        if bad:
+                            add(ex, f"C11:trainer:{tk}:{'sum-reduction' if '.pos' in bad[1] or '.neg' in bad[1] else cat(bad[1])}",
+                                f"{tk} (delayed mode, batch_reduction=sum) on a delayed {ck} cell"
+                                f"{' with ' + str(cfg['conns'][0]['f']) + ' filters' if ck == 'conv' else ''}, batch {B}, step {bad[0]}: {bad[1]}: {bad[2]}",
+                                dict(case, step=bad[0], entry=bad[1], inputs=[[x.tolist() for x in xs] for xs in X]))
+                            break
+                    if nonzero or bad or attempt == 2:
+                        break
+                ex.count("trainer-grid", f"{tk}:{ck}")
+                ex.traces_validated += 1
+                if nonzero and not bad:
+                    ex.nontriv(("trainer-grid", tk, ck, json.dumps(tc), json.dumps(cfg)))
+
+
+# ------------------------------------------------------------------------------------------ (A) the documented batch reduction of adaptations
+def _sqrt_sum(x, dim):
+    """a user-defined reduction: the sum scaled by 1/sqrt(count)"""
+    return x.sum(dim) / x.shape[dim] ** 0.5
+
+
+REDUCTIONS = {"sum": torch.sum, "mean": torch.mean, "amax": torch.amax, "amin": torch.amin, "prod": torch.prod, "sqrt-sum": _sqrt_sum}
+
+
+def build_adaptive(cfg, shape, batch, red):
+    """the four adaptive neuron classes with an explicit batch_reduction (same arguments as the shared builder otherwise)"""
+    k, c = cfg["kind"], cfg
+    common = dict(refrac_t=c["refracT"], resistance=c["R"], batch_size=batch, batch_reduction=red)
+    if k == "ALIF":
+        return snn.ALIF(shape, c["dt"], rest_v=c["rest"], reset_v=c["reset"], thresh_eq_v=c["thresh"], tc_membrane=c["tau"],
+                        tc_adaptation=tuple(c["tcA"]), spike_increment=tuple(c["incA"]), **common)
+    if k == "GLIF2":
+        return snn.GLIF2(shape, c["dt"], rest_v=c["rest"], reset_v_add=c["icpt"], reset_v_mul=c["slope"], thresh_eq_v=c["thresh"],
+                         tc_membrane=c["tau"], rc_adaptation=tuple(1.0 / t for t in c["tcA"]), spike_increment=tuple(c["incA"]), **common)
+    if k == "Izhikevich":
+        return snn.Izhikevich(shape, c["dt"], rest_v=c["rest"], crit_v=c["a"], affinity=c["b"], reset_v=c["reset"], thresh_v=c["thresh"],
+                              tc_membrane=c["tau"], tc_adaptation=tuple(c["tcA"]), voltage_coupling=tuple(c["vcA"]),
+                              spike_increment=tuple(c["incA"]), **common)
+    if k == "AdEx":
+        return snn.AdEx(shape, c["dt"], rest_v=c["rest"], rheobase_v=c["a"], sharpness=c["b"], reset_v=c["reset"], thresh_v=c["thresh"],
+                        tc_membrane=c["tau"], tc_adaptation=tuple(c["tcA"]), voltage_coupling=tuple(c["vcA"]),
+                        spike_increment=tuple(c["incA"]), **common)
+    raise AssertionError(k)
+
+
+def set_adaptation(neuron, val):
+    if hasattr(neuron, "threshold_adaptation_"):
+        neuron.threshold_adaptation = val
+    else:
+        neuron.current_adaptation = val
+
+
+def neuron_adapt_stream(ctx, ex, thorough):
+    """adaptation ON: the one documented cross-sample coupling.  The four adaptive neuron classes are constructed with every
+    reduction of REDUCTIONS (the library's default mean, the other torch reductions its documentation names, and a user-defined
+    one), batch sizes 2-4, and stepped with adaptation enabled (adapt=True, or adapt=None in training mode).  Before every step the
+    batch-1 copies receive the batched neuron's present (non-zero, non-uniform) adaptations, so all start the step from the same
+    state; after it
+      * spikes / voltages / refractory periods of sample b == those of copy b (torch.equal), and
+      * the batched adaptation == reduction(stack of the copies' adaptations, 0)  (1e-9 relative; the documented reduction),
+    and an unreduced (B x ...) tensor assigned through the public adaptation setter must leave reduction(value, 0) (closed form)"""
+    rng = ctx.rng
+    T = 12 if thorough else 6
+    for kind in sorted(nb.ADAPTIVE):
+        for rname in REDUCTIONS:
+            for rep in range(4 if thorough else 2):
+                red = REDUCTIONS[rname]
+                cfg = nb.neuron_cfg(rng, kind)
+                shape = rng.choice([(3,), (2, 2), (4,)])
+                B = rng.choice([2, 3, 4])
+                lock = rng.random() < 0.7
+                via_mode = rep % 2 == 1          # adapt=None + training mode instead of adapt=True
+                g = nb.gen(rng.randrange(2**31))
+                big = build_adaptive(cfg, shape, B, red)
+                singles = [build_adaptive(cfg, shape, 1, red) for _ in range(B)]
+                for m in [big] + singles:
+                    m.train(via_mode)
+                nk = int(nb.adaptation_of(big).shape[-1])
+                case = {"stream": "neuron-adapt", "class": kind, "cfg": cfg, "shape": list(shape), "batch": B, "lock": lock, "steps": T,
+                        "batch_reduction": rname, "adapt": None if via_mode else True, "training_mode": via_mode}
+                ex.count("neuron-adapt", f"{kind}:{rname}")
+                gap = (cfg["thresh"] - cfg["rest"]) / cfg["R"]
+                bad, nsp, moved, setter_bad = None, 0, False, False
+                xs, priors = [], []
+                # (i) the setter on an unreduced batch of adaptations
+                val = torch.rand(B, *shape, nk, generator=g) * 2.0 - 0.5
+                set_adaptation(big, torch.rand(*shape, nk, generator=g) + 0.25)       # a non-zero present state
+                before = nb.adaptation_of(big).detach().clone()
+                try:
+                    set_adaptation(big, val.clone())
+                    got = nb.adaptation_of(big).detach().clone()
+                    want = red(val, 0)
+                    ex.evaluations += 1
+                    if got.shape != want.shape or not approx(got, want):
+                        i = (got - want).abs().flatten().argmax().item() if got.shape == want.shape else 0
+                        add(ex, f"C11:neuron:{kind}:adaptation-batch-reduction", f"{kind} (batch_reduction={rname}): assigning an unreduced {tuple(val.shape)} "
+                            f"tensor through the adaptation setter (present state non-zero) leaves "
+                            f"{got.flatten()[i].item() if got.shape == want.shape else tuple(got.shape)} where {rname}(value, 0) is "
+                            f"{want.flatten()[i].item() if got.shape == want.shape else tuple(want.shape)} (flat index {i}; present state there "
+                            f"{before.flatten()[i].item() if before.shape == want.shape else '?'}, per-sample values {val.reshape(B, -1)[:, i].tolist() if got.shape == want.shape else '?'})",
+                            dict(case, op="setter", present=before.tolist(), value=val.tolist()))
+                        setter_bad = True
+                except Exception as e:  # noqa: BLE001
+                    add(ex, f"C11:neuron:{kind}:adaptation-setter-raises", f"{kind} (batch_reduction={rname}): assigning an unreduced {tuple(val.shape)} tensor "
+                        f"through the adaptation setter raises {type(e).__name__}: {str(e)[:160]}", dict(case, op="setter", present=before.tolist(), value=val.tolist()))
+                    setter_bad = True
+                # (ii) stepping with adaptation enabled
+                for t in range(T if not bad else 0):
+                    cur = nb.adaptation_of(big).detach()
+                    if t == 0 or not bool(torch.isfinite(cur).all()) or float(cur.abs().max()) > 8.0 or float(cur.abs().max()) < 1e-3:
+                        set_adaptation(big, torch.rand(*shape, nk, generator=g) * 2.0 + 0.125)     # (re)start from a moderate non-zero state
+                    prev = nb.adaptation_of(big).detach().clone()
+                    priors.append(prev.tolist())
+                    for s in singles:
+                        set_adaptation(s, prev.clone())
+                    x = (torch.rand(B, *shape, generator=g) * 6.0 - 1.0) * gap * (8.0 if rng.random() < 0.3 else 1.0)
+                    xs.append(x)
+                    kw = {"refrac_lock": lock, "adapt": None if via_mode else True}
+                    with torch.no_grad():
+                        s1 = [s(x[b:b + 1], **kw) for b, s in enumerate(singles)]
+                        try:
+                            sB = big(x, **kw)
+                        except Exception as e:  # noqa: BLE001
+                            add(ex, f"C11:neuron:{kind}:batched-raises", f"{kind} (batch_reduction={rname}) batch {B}: the adapting batched step raises "
+                                f"{type(e).__name__} at step {t} ({str(e)[:160]}) while its batch-1 copies run",
+                                dict(case, step=t, inputs=[v.tolist() for v in xs], adaptations_before_each_step=priors))
+                            bad = (t, 0, "raises", "")
+                            break
+                    nsp += int(sB.sum())
+                    ex.evaluations += 1
+                    for b in range(B):
+                        if not torch.equal(sB[b:b + 1], s1[b]):
+                            bad = (t, b, "output spikes", f"{sB[b].tolist()} vs {s1[b][0].tolist()}")
+                            break
+                    if not bad:
+                        strip = lambda sn: {k: v for k, v in sn.items() if "adaptation" not in k}
+                        d = compare_snapshots(strip(nb.snapshot({"n": big})), [strip(nb.snapshot({"n": s})) for s in singles], B)
+                        if d:
+                            bad = (t, d[1], d[0], d[2])
+                    if bad:
+                        add(ex, f"C11:neuron:{kind}:{cat(bad[2])}", f"{kind} (adapting, batch_reduction={rname}) batch {B}: sample {bad[1]} differs from its "
+                            f"batch-1 copy at step {bad[0]}: {bad[2]}: {bad[3]}",
+                            dict(case, step=bad[0], sample=bad[1], entry=bad[2], inputs=[v.tolist() for v in xs], adaptations_before_each_step=priors))
+                        break
+                    got = nb.adaptation_of(big).detach().clone()
+                    per = torch.stack([nb.adaptation_of(s).detach() for s in singles], 0)
+                    want = red(per, 0)
+                    moved = moved or not torch.equal(got, prev)
+                    if got.shape != want.shape or not approx(got, want):
+                        i = (got - want).abs().flatten().argmax().item() if got.shape == want.shape else 0
+                        add(ex, f"C11:neuron:{kind}:adaptation-batch-reduction", f"{kind} (adapting, batch_reduction={rname}) batch {B}, step {t}: the batched "
+                            f"adaptation is {got.flatten()[i].item() if got.shape == want.shape else tuple(got.shape)} where {rname} over the per-sample "
+                            f"adaptations {per.reshape(B, -1)[:, i].tolist() if got.shape == want.shape else ''} (batch-1 copies stepped from the same state "
+                            f"{prev.flatten()[i].item() if got.shape == want.shape else ''}) is {want.flatten()[i].item() if got.shape == want.shape else tuple(want.shape)} "
+                            f"(flat index {i})",
+                            dict(case, step=t, entry="adaptation", inputs=[v.tolist() for v in xs], adaptations_before_each_step=priors))
+                        bad = (t, 0, "adaptation", "")
+                        break
+                ex.traces_validated += 1
+                if moved and not bad and not setter_bad:
+                    ex.nontriv(("neuron-adapt", kind, rname, json.dumps(cfg), B, lock, via_mode))
+
+
 # new streams are APPENDED: each stream's PRNG is drawn in this order from the run's PRNG, so earlier streams keep their cases
 STREAMS = [("neuron", neuron_stream), ("synapse", synapse_stream), ("connection", connection_stream),
            ("layer", layer_stream), ("trainer", trainer_stream), ("synapse-long", synapse_long_stream),
-           ("connection-wide", connection_wide_stream)]
+           ("connection-wide", connection_wide_stream), ("connection-large", connection_large_stream),
+           ("trainer-grid", trainer_grid_stream), ("neuron-adapt", neuron_adapt_stream)]
 
 
 class Sub:
@@ -707,7 +993,12 @@ def explore(ctx) -> Exploration:
                "synapse-long (80-step histories, time constants of 0.5-2 steps, float64 and float32, per-sample activity windows: one sample silent "
                "after its first 1-3 steps at a random batch index, one active throughout, others late-start / early-stop) and connection-wide "
                "(presynaptic widths drawn without replacement from 24..1024, conv images 8..32 square, batch 2-5, each sample independently blank "
-               "on a step with probability 0.35 or starting late). One evaluation = one compared step; "
+               "on a step with probability 0.35 or starting late); connection-large (dense / lateral / conv, with and without delays, batch x inputs x "
+               "outputs from 2^15 to 2^21 — the largest size of each pool in every run — batch 3-8); trainer-grid (every trainer x every connection "
+               "class with learned delays, trainer in delayed mode, conv with 2-4 filters, batch 2-4, enumerated). neuron-adapt: the four adaptive "
+               "classes x batch_reduction in {sum, mean, amax, amin, prod, sqrt-sum} with adaptation ON (adapt=True / training mode): per-sample spikes "
+               "and state == batch-1 copies started from the same adaptations, batched adaptation == reduction of the copies' adaptations (1e-9), "
+               "and reduction(value, 0) after assigning an unreduced tensor through the setter. One evaluation = one compared step; "
                "non-trivial = activity occurred (spikes / non-zero update parts) and the whole run agreed")
     ex.samples = [{k: v for k, v in f.case.items() if k != "inputs"} for f in ex.findings[:2]] or [{"streams": [n for n, _ in STREAMS]}]
     return ex
